@@ -15,7 +15,7 @@ from __future__ import annotations
 import ast
 
 from sa.cfg import node_calls, node_exprs, _walk_shallow
-from sa.common import cfg_of
+from sa.common import cfg_of, is_int_test, var_cmp
 from sa.consts import Folder, Unfoldable
 from sa.flow import must_pass, reach, reaching_defs, lines, path
 from sa.load import AnalysisError, Program, arg_of, callee_name, dotted, norm
@@ -25,18 +25,14 @@ MAX_PKT = 65520
 
 
 def _fold_len_bounds(prog, m, f):
-    """Tests in f that compare len(<param>) (+4) with a constant and raise/split on the true side."""
+    """Tests in f that compare len(<param>) (+4) with a constant: (node, op, constant, plus) oriented as `len(..) op c`."""
     F = Folder(prog, m)
     out = []
     for x in ast.walk(f.node):
-        if isinstance(x, ast.Compare) and len(x.ops) == 1 and "len(" in norm(x.left):
-            try:
-                c = F.fold(x.comparators[0])
-            except Unfoldable:
-                continue
-            if isinstance(c, int):
-                plus = 4 if "+ 4" in norm(x.left) else 0
-                out.append((x, type(x.ops[0]).__name__, c, plus))
+        v = var_cmp(x, F)
+        if v is not None and "len(" in norm(v[0]):
+            plus = 4 if "+ 4" in norm(v[0]) else 0
+            out.append((x, {">": "Gt", ">=": "GtE"}.get(v[1], v[1]), v[2], plus))
     return out
 
 
@@ -141,8 +137,7 @@ def run(prog: Program, rep, tier="quick"):
     for qual, payload_pat in (("Protocol.read_pkt_line", "size - 4"), ("PktLineParser.parse", None)):
         f = prog.func(PROTO, qual)
         g = cfg_of(prog, f)
-        lt4 = [i for i, n in g.nodes.items() if n.kind == "test" and isinstance(n.ast, ast.Compare)
-               and norm(n.ast).replace(" ", "") in ("size<4",)]
+        lt4 = [i for i, n in g.nodes.items() if n.kind == "test" and is_int_test(n.ast, F, "size", "<", 4)]
         if payload_pat is not None:
             use = [i for i, n in g.nodes.items() if any(payload_pat in norm(e) for e in node_exprs(n)) and n.kind in ("stmt", "test")]
         else:
@@ -157,8 +152,7 @@ def run(prog: Program, rep, tier="quick"):
         rep.ob("R19.2", PROTO, qual, "payload extracted only after `size < 4` was rejected", ok,
                "read(size - 4) / buf[4:size] is reachable for a length below 4: negative read or an endless parser loop",
                g.nodes[use[0]].line)
-        zero = [i for i, n in g.nodes.items() if n.kind == "test" and isinstance(n.ast, ast.Compare)
-                and norm(n.ast).replace(" ", "") in ("size==0",)]
+        zero = [i for i, n in g.nodes.items() if n.kind == "test" and is_int_test(n.ast, F, "size", "==", 0)]
         bad = must_pass(g, lt4, zero)
         rep.ob("R19.2", PROTO, qual, "flush (0000) handled before the < 4 rejection", bool(zero) and not bad,
                "", g.nodes[lt4[0]].line if lt4 else f.node.lineno)
@@ -173,11 +167,16 @@ def run(prog: Program, rep, tier="quick"):
         raise AnalysisError("read_pkt_line: payload read not found")
     for c in reads:
         par = f.module.parents.get(c)
-        guarded = isinstance(par, ast.IfExp) and par.body is c and norm(par.test).replace(" ", "") in ("size>4", "size!=4", "size>=5")
+        def more_than_4(e):
+            return is_int_test(e, F, "size", ">", 4) or is_int_test(e, F, "size", "!=", 4)
+
+        def at_most_4(e):
+            return is_int_test(e, F, "size", "<=", 4) or is_int_test(e, F, "size", "==", 4)
+        guarded = isinstance(par, ast.IfExp) and ((par.body is c and more_than_4(par.test)) or (par.orelse is c and at_most_4(par.test)))
         if not guarded:
             g2 = cfg_of(prog, f)
-            tests = {i: "true" for i, n in g2.nodes.items() if n.kind == "test" and norm(n.ast).replace(" ", "") in ("size>4", "size!=4", "size>=5")}
-            tests.update({i: "false" for i, n in g2.nodes.items() if n.kind == "test" and norm(n.ast).replace(" ", "") in ("size==4", "size<=4")})
+            tests = {i: "true" for i, n in g2.nodes.items() if n.kind == "test" and more_than_4(n.ast)}
+            tests.update({i: "false" for i, n in g2.nodes.items() if n.kind == "test" and at_most_4(n.ast)})
             r_ = reach(g2, [g2.entry], include_srcs=True, edge_ok=lambda a, b, l: not (a in tests and l == tests[a]))
             guarded = bool(tests) and not any(x in r_ for x in g2.nodes_containing(c))
         rep.ob("R19.2", PROTO, f.qual, "the transport is not asked for zero bytes on an empty pkt-line", guarded,
